@@ -677,10 +677,24 @@ def d6(cx: Cx, ob: Ob) -> None:
     found = False
     for t, ctx in s.returns():
         for x in subterms(t):
+            keyed = op(x) == "comp" and x[1] == "dict" and op(x[2]) == "kv" and op(x[2][2]) == "call" and op(x[2][2][1]) == "cls" and x[2][2][1][1].endswith(".Record")
+            if keyed:
+                # {key: Record(..) for row in results}: rows with the same key collapse into one record
+                x = ("comp", "list", x[2][2], x[3], x[2][1])
             if op(x) == "comp" and op(x[2]) == "call" and op(x[2][1]) == "cls" and x[2][1][1].endswith(".Record"):
                 found = True
                 tgt = x[3][0][0]
                 kw = dict(x[2][3])
+                if len(x) > 4 and op(tgt) == "tuple" and len(tgt[1]) == 3:
+                    kparts = {y for y in subterms(x[4]) if y in tgt[1][:2]}
+                    if set(tgt[1][:2]) - kparts:
+                        ob.violate(
+                            fn.qualname,
+                            fn.where,
+                            f"from_shacl keeps one record per `{show(x[4])[:40]}`: declarations that differ in the other component (a synonym declared for the same namespace, written by write_shacl(include_synonyms=True)) collapse into one, so prefixes the writer wrote are not read back",
+                            witness="record GO with synonym go, written with include_synonyms=True: only one of the two declarations survives the reading",
+                            detail="dedupe-key",
+                        )
                 if op(tgt) != "tuple" or len(tgt[1]) != 3:
                     ob.undecide("from_shacl row target is not a 3-tuple")
                     continue
